@@ -82,4 +82,7 @@ let () =
       (Model.c14_pubkey_from_pem b64dec (vb pem)) | _ -> raise (Bad "arity"));
   register "c14_cli_pubkey" (function [p; a; b; n; gx; gy; data; c; pem] ->
     of_result (fun r -> VB r) (Model.c14_cli_pubkey b64enc (vi p) (vi a) (vi b) (vi n) (g_of gx gy) (vb data) (vbool c) (vbool pem))
-    | _ -> raise (Bad "arity"))
+    | _ -> raise (Bad "arity"));
+  register "c14_wif_decode_seq" (function [ws; _mode] ->
+    of_result (fun l -> VL (List.map (fun ((((v, net), ty), k), d) -> VT [VB v; VS net; VS ty; VB k; VB d]) l))
+      (Model.c14_wif_decode_seq sha256 (List.map vb (vl ws))) | _ -> raise (Bad "arity"))
